@@ -21,7 +21,7 @@ pub fn main(tier: &str, seed: u64, n_override: Option<u64>) {
         let kind = idx % 8;
         let m = random_iso(&mut rng, false);
         let far = rng.below(5) == 0;
-        let p1 = pt(&mut rng, far);
+        let mut p1 = pt(&mut rng, far);
         let mut p2 = pt(&mut rng, far); let mut p3 = pt(&mut rng, far);
         if kind == 1 { // exactly collinear source (exactly representable: p3 = p1 + 2 (p2 - p1) on the dyadic grid)
             p3 = Point3::from(p1.coords + 2.0 * (p2 - p1));
@@ -32,7 +32,7 @@ pub fn main(tier: &str, seed: u64, n_override: Option<u64>) {
         if kind == 7 { p2 = Point3::from(p1.coords + Vector3::new(0.25, 0.0, 0.0)); p3 = Point3::from(p1.coords + Vector3::new(0.0, 0.5, 0.0)); }
         let mut q1 = m * p1; let mut q2 = m * p2; let mut q3 = m * p3;
         let mut expect = "ok";
-        let cross = (p2 - p1).cross(&(p3 - p1)).norm();
+        let mut cross = (p2 - p1).cross(&(p3 - p1)).norm();
         if kind == 1 { expect = "collinear_source"; }
         if kind == 3 { // perturb beyond the 5 mm tolerance along the p1-p2 direction
             let dir = (q2 - q1).normalize(); q2 = q2 + dir * 0.0065; expect = "not_isometry";
@@ -40,19 +40,16 @@ pub fn main(tier: &str, seed: u64, n_override: Option<u64>) {
         if kind == 4 { // perturb below the tolerance
             let dir = (q3 - q1).normalize(); q3 = q3 + dir * 0.003; expect = "ok_perturbed";
         }
-        if kind == 5 { // collinear target with matching distances: fold the source triangle flat is impossible; use identical collinear images
-            // target collinear but distances equal to source only if source collinear too -> instead make the source exactly collinear too? no:
-            // the guard order is congruence, source, target: a collinear target with congruent distances implies a collinear source,
-            // so the target branch is reached only within the 5 mm slack: thin triangle
-            let d = Vector3::new(1.0, 0.0, 0.0);
-            let pp1 = Point3::new(0.0, 0.0, 0.0); let pp2 = Point3::new(1.0, 0.0, 0.0); let pp3 = Point3::new(0.5, 0.001953125, 0.0);
-            q1 = Point3::new(3.0, 1.0, 2.0); q2 = q1 + d; q3 = q1 + 0.5 * d;
-            let r = Frame::frame(pp1, pp2, pp3, q1, q2, q3);
-            let got = classify(&r);
-            let ok = got == "collinear_target";
-            println!("{}", Obj::new().s("prop", "C17").s("what", "frame").i("case", idx as i64).s("expect", "collinear_target").s("got", &got)
-                .s("direct", if ok { "ok" } else { "fail" }).s("class", if ok { "" } else { "C17.collinear_target_not_rejected" }).done());
-            continue;
+        if kind == 5 {
+            // collinear target: the guard order is congruence, source, target, and a collinear target with exactly congruent distances
+            // implies a collinear source, so the target branch is reached only within the 5 mm slack: a thin source triangle
+            // (height 2-4 mm) against an exactly collinear target (dyadic coordinates, q3 the exact midpoint)
+            let h = 0.001953125 * (1.0 + rng.below(2) as f64);
+            let d = Vector3::new(1.0, 0.0, 0.0) * (0.5 + 0.25 * rng.below(4) as f64);
+            p1 = Point3::new(0.25 * rng.int(-4, 4) as f64, 0.25 * rng.int(-4, 4) as f64, 0.0); p2 = p1 + d; p3 = p1 + 0.5 * d + Vector3::new(0.0, h, 0.0);
+            let dq = [Vector3::new(1.0, 0.0, 0.0), Vector3::new(0.0, 1.0, 0.0), Vector3::new(0.0, 0.0, -1.0)][rng.below(3) as usize] * d.norm();
+            q1 = Point3::new(3.0, 1.0, 2.0); q2 = q1 + dq; q3 = q1 + 0.5 * dq;
+            expect = "collinear_target";
         }
         if kind == 6 { // forward_transformed
             let r = random_robot(&mut rng, idx, false, None);
@@ -69,6 +66,7 @@ pub fn main(tier: &str, seed: u64, n_override: Option<u64>) {
             println!("{}", Obj::new().s("prop", "C17").s("what", "forward_transformed").i("case", idx as i64).i("nsol", sols.len() as i64).s("direct", direct).s("class", class).done());
             continue;
         }
+        if kind == 5 { cross = (p2 - p1).cross(&(p3 - p1)).norm(); }
         let res = Frame::frame(p1, p2, p3, q1, q2, q3);
         let got = classify(&res);
         let mut direct = "ok".to_string(); let mut class = String::new();
